@@ -34,11 +34,13 @@ pub struct G<'a> {
     pub sorted_bias: u64,
     /// generate transaction / governance-action indices above 65535 (the API type is u32, the CDDL says uint .size 2)
     pub wide_index: bool,
+    /// generate PlutusV1 scripts only (the JSON form of a script does not record its language)
+    pub v1_only: bool,
 }
 
 impl<'a> G<'a> {
     pub fn new(r: &'a mut Rng, depth: u32, coll: usize) -> G<'a> {
-        G { r, depth, coll, tags: Tags::default(), mask: None, force_int: None, sorted_bias: 8, wide_index: false }
+        G { r, depth, coll, tags: Tags::default(), mask: None, force_int: None, sorted_bias: 8, wide_index: false, v1_only: false }
     }
 
     /// decision for an optional field
@@ -314,6 +316,9 @@ impl<'a> G<'a> {
             _ => self.r.usize(200),
         };
         let b = self.r.bytes(n);
+        if self.v1_only {
+            return PlutusScript::new(b);
+        }
         PlutusScript::new_with_version(b, &self.language())
     }
     /// Plutus scripts grouped by language (V1s, V2s, V3s): the wire format stores them in one
